@@ -151,6 +151,12 @@ class EventDriver:
                 want = 1 / (scipy.constants.N_A * vals['total'])
                 if abs(cc.total_interaction_length - want) > 1e-9 * want:
                     raise Divergence(where + ': total interaction length = 1/(N_A sigma)', want, cc.total_interaction_length)
+                # the same interaction object after its kind is switched reports the other kind's numbers
+                cc.interaction_length
+                cc.kind = 'nc'
+                if abs(cc.cross_section - vals['nc']) > 1e-12 * vals['nc'] or abs(cc.interaction_length - nc.interaction_length) > 1e-9 * nc.interaction_length:
+                    raise Divergence(where + ': interaction switched from cc to nc (cross section, length)', (vals['nc'], nc.interaction_length),
+                                     (cc.cross_section, cc.interaction_length))
                 if prev is not None:
                     for k in vals:
                         if not vals[k] > prev[k]:
